@@ -7,6 +7,7 @@ func init() {
 	vRegister("H_C08_vacuity", H_C08_vacuity)
 	vRegister("H_C16_copy_record", H_C16_copy_record)
 	vRegister("H_C16_copy_opt", H_C16_copy_opt)
+	vRegister("H_C16_copy_emptycap", H_C16_copy_emptycap)
 	vRegister("H_C16_unpack_alias", H_C16_unpack_alias)
 	vRegister("H_C16_readonly", H_C16_readonly)
 	vRegister("H_C16_vacuity", H_C16_vacuity)
@@ -144,6 +145,36 @@ func H_C16_copy_record() {
 	vAssert(!vAliased(rr, c), "copy-shares-no-memory")
 	vAssert(vDeepEqual(rr, c), "copy-equal-in-value")
 	vAssert(vSame(rr, snap), "copy-leaves-original-unchanged")
+}
+
+// H_C16_copy_emptycap: records whose slices are empty but have spare capacity (as left by append/reslice): the copy
+// must not share that capacity either - an append on one side would show through on the other.
+func H_C16_copy_emptycap() {
+	var rr RR
+	switch vChoice("shape", 7) {
+	case 0:
+		rr = &TXT{Hdr: RR_Header{Name: "t.", Rrtype: TypeTXT, Class: ClassINET}, Txt: make([]string, 0, 4)}
+	case 1:
+		rr = &NSEC{Hdr: RR_Header{Name: "n.", Rrtype: TypeNSEC, Class: ClassINET}, NextDomain: "o.", TypeBitMap: make([]uint16, 0, 4)}
+	case 2:
+		rr = &OPT{Hdr: RR_Header{Name: ".", Rrtype: TypeOPT}, Option: []EDNS0{&EDNS0_PADDING{Padding: make([]byte, 0, 8)}}}
+	case 3:
+		rr = &OPT{Hdr: RR_Header{Name: ".", Rrtype: TypeOPT}, Option: []EDNS0{&EDNS0_DAU{Code: EDNS0DAU, AlgCode: make([]uint8, 0, 8)}, &EDNS0_LOCAL{Code: EDNS0LOCALSTART, Data: make([]byte, 0, 8)}}}
+	case 4:
+		rr = &OPT{Hdr: RR_Header{Name: ".", Rrtype: TypeOPT}, Option: make([]EDNS0, 0, 4)}
+	case 5:
+		rr = &SVCB{Hdr: RR_Header{Name: "s.", Rrtype: TypeSVCB, Class: ClassINET}, Target: ".", Value: []SVCBKeyValue{&SVCBAlpn{Alpn: make([]string, 0, 4)}, &SVCBECHConfig{ECH: make([]byte, 0, 8)}}}
+	default:
+		rr = &HIP{Hdr: RR_Header{Name: "h.", Rrtype: TypeHIP, Class: ClassINET}, RendezvousServers: make([]string, 0, 4)}
+	}
+	c := Copy(rr)
+	vReach("copied")
+	vAssert(!vAliased(rr, c), "copy-shares-no-memory")
+	m := new(Msg)
+	m.Extra = append(make([]RR, 0, 4), rr)
+	m.Answer = make([]RR, 0, 4)
+	m2 := m.Copy()
+	vAssert(!vAliased(m, m2), "message-copy-shares-no-memory")
 }
 
 func H_C16_copy_opt() {
